@@ -231,6 +231,7 @@ def step (slots : Slots) (line : String) : Slots × String :=
     | some ⟨_, true⟩ => (slots, "wf ok")
     | none => (slots, "bad-op")
   | ["SCRIBBLE", _] => (slots, "ok")
+  | ["FCOPY", _, _, _, _] => (slots, "ok")   -- a TopicFilter copied out of a packet and modified: the packet is untouched
   | ["RT", s] => match slots.get? s with
     | some ⟨p, false⟩ => (slots, roundTrip p)
     | some ⟨_, true⟩ => (slots, "rt ok")
